@@ -172,6 +172,9 @@ MUTANTS = [
     ("weak_form_no_memo", "bempp_cl/api/assembly/boundary_operator.py", "        if not self._cached:\n            self._cached = self._assemble()\n\n        return self._cached", "        self._cached = self._assemble()\n\n        return self._cached", 0, ["C18"]),
     ("fmm_near_kernel_gradient_sign", "bempp_cl/api/fmm/helpers.py", "                    -diff[i, j] * m_inv_4pi / (dist[j] * dist[j] * dist[j])", "                    diff[i, j] * m_inv_4pi / (dist[j] * dist[j] * dist[j])", 0, ["C17"]),
     ("fmm_dl_component", "bempp_cl/api/fmm/fmm_assembler.py", "fmm_res2 = fmm_interface.evaluate(source_normals[:, 1] * x_transformed)[:, 2]", "fmm_res2 = fmm_interface.evaluate(source_normals[:, 1] * x_transformed)[:, 1]", 0, ["C17"]),
+    ("fmm_div_transform_factor", "bempp_cl/api/fmm/fmm_assembler.py", "data[index] = 2.0 * edge_lengths[function_index] * (weights[point_index])", "data[index] = edge_lengths[function_index] * (weights[point_index])", 0, ["C17"]),
+    ("fmm_curl_without_normal_multiplier", "bempp_cl/api/fmm/fmm_assembler.py", "surface_curl = normal_multipliers[element] * _np.cross(", "surface_curl = _np.cross(", 0, ["C17"]),
+    ("fmm_basis_multipliers_twice", "bempp_cl/api/fmm/fmm_assembler.py", "        space.localised_space.local_multipliers,\n", "        space.local_multipliers,\n", 0, ["C17"]),
     ("near_field_coefficient_index", "bempp_cl/api/fmm/helpers.py", "* coeffs[npoints * source_element + source_point_index]", "* coeffs[npoints * source_element_index + source_point_index]", 0, ["C17"]),
     ("near_field_matrix_column", "bempp_cl/api/fmm/helpers.py", "indices[local_count] = npoints * source_element + source_point_index", "indices[local_count] = npoints * source_element_index + source_point_index", 0, ["C17"]),
     ("near_field_read_stride", "bempp_cl/api/fmm/helpers.py", "                                + 4 * source_element_index * npoints\n", "                                + 4 * source_element_index * nneighbors\n", 0, ["C17"]),
